@@ -274,6 +274,31 @@ func init() {
 		w.expect("C03", "A3-rotation-second-revision-new-key", verr, ok, true, fmt.Sprintf("second revision of v2 contract %v in a block, signed with the renter key the first revision rotated in", c.id))
 		verr, ok = sc.offer(nil, []types.V2Transaction{t1, second(c.renterKey())}, offerOpt{})
 		w.expect("C03", "A3-rotation-second-revision-old-key", verr, ok, false, fmt.Sprintf("second revision of v2 contract %v in a block, signed with the renter key the first revision rotated out", c.id))
+		// three revisions in one block, the key changing in the middle one: the third
+		// answers to the key the second put in
+		if cur.RevisionNumber < types.MaxRevisionNumber-8 {
+			p1 := cur
+			p1.RevisionNumber++
+			p1.FileMerkleRoot[1] ^= 1
+			w.signContractV2(sc.s, &p1, c.renterKey(), c.hostKey())
+			p2 := p1
+			p2.RevisionNumber++
+			p2.RenterPublicKey = newKey.PublicKey()
+			w.signContractV2(sc.s, &p2, c.renterKey(), c.hostKey())
+			third := func(renter types.PrivateKey) types.V2Transaction {
+				p3 := p2
+				p3.RevisionNumber++
+				p3.FileMerkleRoot[2] ^= 1
+				w.signContractV2(sc.s, &p3, renter, c.hostKey())
+				return types.V2Transaction{FileContractRevisions: []types.V2FileContractRevision{{Parent: e.Copy(), Revision: p3}}}
+			}
+			ta := types.V2Transaction{FileContractRevisions: []types.V2FileContractRevision{{Parent: e.Copy(), Revision: p1}}}
+			tb := types.V2Transaction{FileContractRevisions: []types.V2FileContractRevision{{Parent: e.Copy(), Revision: p2}}}
+			verr, ok = sc.offer(nil, []types.V2Transaction{ta, tb, third(newKey)}, offerOpt{})
+			w.expect("C03", "A3-rotation-third-revision-new-key", verr, ok, true, fmt.Sprintf("third revision of v2 contract %v in a block, signed with the renter key the second revision rotated in", c.id))
+			verr, ok = sc.offer(nil, []types.V2Transaction{ta, tb, third(c.renterKey())}, offerOpt{})
+			w.expect("C03", "A3-rotation-third-revision-old-key", verr, ok, false, fmt.Sprintf("third revision of v2 contract %v in a block, signed with the renter key the second revision rotated out", c.id))
+		}
 	}}
 	registerRows("C03", rotation)
 
